@@ -1256,6 +1256,8 @@ class SymEx:
         if isinstance(b, tuple) and b[0] == 'class':
             m = self.repo.lookup_method(b[1], name)
             if m is not None:
+                if 'classmethod' in m.decorators:
+                    return ('bound', m, b)          # the class itself is the first argument
                 return ('func', m)
             if name == '__name__':
                 return Const(b[1].name)
